@@ -515,6 +515,8 @@ class Interp:
                 return r.value
             return None
         finally:
+            if len(self.ctx.fn_stack) <= 2 and self.ctx.fn_stack[0] == fi.qualname:
+                self.ctx.ghost['locals_at_exit'] = frame.env        # (postconditions may speak about the final locals)
             self.ctx.fn_stack.pop()
 
     def bind_args(self, fi: source.FuncInfo, pos: list, kw: dict, frame_for_defaults=None) -> dict:
@@ -808,7 +810,7 @@ class Interp:
             ctx.oblige(f'inv.init#{k}.{cname}', f, extra_terms=[i0])
         which = ctx.choose(f'loop{k}', ['body', 'exit'])
         # havoc everything the body may modify
-        mods = spec.get('modifies') or sorted(_modified_names(s.body) | ({t.id for t in ast.walk(s.target) if isinstance(t, ast.Name)} if is_for else set()))
+        mods = spec['modifies'] if spec.get('modifies') is not None else sorted(_modified_names(s.body) | ({t.id for t in ast.walk(s.target) if isinstance(t, ast.Name)} if is_for else set()))
         mcols = spec.get('modifies_cols') or {}
         col_snap = {}
         for name in mods:
@@ -826,6 +828,8 @@ class Interp:
                     col_snap[name] = {cn: c for cn, c in tab.cols.items() if cn not in mcols[name]}
                 else:
                     fr.env[name] = self.havoc_value(fr.env[name], name)
+        if 'havoc' in spec:
+            spec['havoc'](fr.env, ctx)          # contract-supplied havoc of values whose shape changes (e.g. a table losing rows)
         for oname, flds in (spec.get('modifies_fields') or {}).items():
             obj = fr.env.get(oname)
             for fld in flds:
